@@ -40,7 +40,7 @@ BRIDGE = {
 
 # translated functions (harness/pyfun2lean.py) each property's model or harness relies on: `Generated.Funcs.f = Pinned.Funcs.f`
 BRIDGE_FUNCS = {
-    "C03": ["to_snake_case", "client_method_name"],
+    "C03": ["to_snake_case", "client_method_name", "method_void"],
     "C04": ["to_camel_case", "fix_name_segment", "fix_field_path"],
     "C06": ["field_header_disambiguated", "routing_param_disambiguated_field"],
     "C08": ["address_resolve"],
@@ -48,9 +48,9 @@ BRIDGE_FUNCS = {
     "C01": ["address_str", "address_module_alias", "address_python_import", "address_rel", "import_str", "service_client_name", "service_async_client_name", "service_transport_name", "service_grpc_transport_name", "service_grpc_asyncio_transport_name", "service_rest_transport_name", "service_module_name"],
     "C11": ["to_valid_filename", "to_valid_module_name", "service_module_name", "naming_module_name", "new_naming_versioned_module_name", "old_naming_versioned_module_name",
             "naming_long_name", "naming_module_namespace", "naming_warehouse_package_name", "address_proto_package", "address_subpackage", "address_versioned_package"],
-    "C12": ["to_snake_case", "to_valid_module_name", "fix_name_segment", "fix_field_path", "client_method_name",
+    "C12": ["to_snake_case", "to_valid_module_name", "fix_name_segment", "fix_field_path", "client_method_name", "field_name",
             "address_str", "address_module_alias", "address_python_import", "address_versioned_package", "address_subpackage", "address_proto_package", "import_str"],
-    "C02": ["address_rel", "address_str", "address_module_alias", "address_proto", "address_proto_package", "address_python_import", "address_versioned_package",
+    "C02": ["field_name", "address_rel", "address_str", "address_module_alias", "address_proto", "address_proto_package", "address_python_import", "address_versioned_package",
             "address_subpackage", "address_sphinx"],
     "C14": ["coerce_response_name", "client_method_name", "to_snake_case", "fix_whitespace"],
     "C15": ["to_snake_case", "make_private", "client_method_name", "service_client_name", "service_async_client_name", "new_naming_versioned_module_name"],
